@@ -416,6 +416,96 @@ func c11big(steps int) *explore.Scenario {
 	return sc
 }
 
+// c11full: datagrams that fill the listener's receive buffer exactly (8192 bytes, the largest it can take in
+// one read) and one byte less, from a known and from a new remote: each is a legal datagram and must come out of
+// its connection whole, in order.
+func c11full() *explore.Scenario {
+	sc := &explore.Scenario{Name: "listener, datagrams of 8191 and 8192 bytes (the receive buffer's size)", Bound: 0}
+	sc.Cfg.Horizon = 10 * time.Second
+	sc.Cfg.Strict = true
+	sc.Make = func() (func(), func(*zzvsched.Exec) (string, *explore.Violation)) {
+		var viol *explore.Violation
+		finished := false
+		step := ""
+		body := func() {
+			fakenet.Reset()
+			l, err := udp.Listen("udp", &net.UDPAddr{IP: net.IPv4(127, 0, 0, 1), Port: 4000})
+			if err != nil {
+				panic(err)
+			}
+			sock := fakenet.Sockets[0]
+			mk := func(seq, n int) []byte {
+				p := make([]byte, n)
+				for i := range p {
+					p[i] = byte(seq*31 + i*7 + 1)
+				}
+				return p
+			}
+			expect := func(cn net.Conn, want []byte) bool {
+				buf := make([]byte, 16384)
+				n, err := cn.Read(buf)
+				if err != nil || n != len(want) || string(buf[:n]) != string(want) {
+					viol = &explore.Violation{Sig: "C11 full-size-datagram", Msg: fmt.Sprintf("%s: the connection returned (n=%d, err=%v) where a datagram of %d bytes was next", step, n, err, len(want))}
+					return false
+				}
+				return true
+			}
+			// a new remote whose FIRST datagram has the full size
+			step = "first datagram of remote b1 is 8192 bytes"
+			p0 := mk(1, 8192)
+			sock.Inject(udpRemotes["b1"], p0)
+			zzvsched.WaitIdle()
+			cb, err := l.Accept()
+			if err != nil {
+				viol = &explore.Violation{Sig: "C11 full-size-datagram", Msg: step + ": Accept failed: " + err.Error()}
+				return
+			}
+			if !expect(cb, p0) {
+				return
+			}
+			// a known remote: 8191, 8192, 1 bytes in a row
+			sock.Inject(udpRemotes["a1"], mk(2, 5))
+			zzvsched.WaitIdle()
+			ca, err := l.Accept()
+			if err != nil {
+				panic(err)
+			}
+			if !expect(ca, mk(2, 5)) {
+				return
+			}
+			var model [][]byte
+			for k, n := range []int{8191, 8192, 1, 8192} {
+				p := mk(3+k, n)
+				model = append(model, p)
+				sock.Inject(udpRemotes["a1"], append([]byte(nil), p...))
+			}
+			zzvsched.WaitIdle()
+			for k, want := range model {
+				step = fmt.Sprintf("datagram #%d (%d bytes) of a known remote", k+1, len(want))
+				if !expect(ca, want) {
+					return
+				}
+			}
+			finished = true
+		}
+		check := func(ex *zzvsched.Exec) (string, *explore.Violation) {
+			out := step
+			if len(ex.Panics) > 0 {
+				return out, &explore.Violation{Sig: "C11 panic", Msg: fmt.Sprintf("%s: panic: %s", step, ex.Panics[0].Value)}
+			}
+			if viol != nil {
+				return out, viol
+			}
+			if !finished && !ex.HorizonHit {
+				return out, &explore.Violation{Sig: "C11 full-size-datagram", Msg: fmt.Sprintf("%s: a Read or Accept blocked although the datagram was delivered to the socket: %v", step, ex.Parked)}
+			}
+			return out, nil
+		}
+		return body, check
+	}
+	return sc
+}
+
 // ------------------------------------------------------------------ C12
 
 type c12cfg struct {
@@ -426,6 +516,7 @@ type c12cfg struct {
 	lateNew              bool // a datagram from a remote the listener has never seen, racing with Close
 	twoClosers           bool // the listener is closed from two threads at once
 	connTwoClosers       bool // every accepted connection is closed from two threads at once
+	backlog              int  // accept queue length (0 = default 128): with 1, a second un-accepted remote overflows the queue and is dropped
 	batch                bool // batch I/O enabled: the socket is wrapped and a flush ticker goroutine runs until the wrapper is closed
 	bound                int
 }
@@ -452,6 +543,9 @@ func (c c12cfg) name() string {
 	}
 	if c.batch {
 		s += " +batch-io"
+	}
+	if c.backlog > 0 {
+		s += fmt.Sprintf(" backlog=%d", c.backlog)
 	}
 	return s
 }
@@ -510,7 +604,7 @@ func c12scenario(c c12cfg) *explore.Scenario {
 		}
 		body := func() {
 			fakenet.Reset()
-			lc := udp.ListenConfig{}
+			lc := udp.ListenConfig{Backlog: c.backlog}
 			if c.batch {
 				lc.Batch = udp.BatchIOConfig{Enable: true, ReadBatchSize: 2, WriteBatchSize: 2, WriteBatchInterval: 50 * time.Millisecond}
 			}
@@ -728,9 +822,10 @@ func init() {
 			} else {
 				out = append(out, c11big(5))
 			}
+			out = append(out, c11full())
 			return out
 		},
-		Rule:        "one remote sending every script of 5 (thorough 7) steps over {datagrams of 1000/1020/1021/1023/1 bytes, Read} so that unread datagrams fill the connection's receive ring to the byte; remotes {a:1, a:2, b:1} (same IP / different port forced) injecting 1-2 tagged datagrams each from their own threads, an accepter thread, one reader thread per accepted connection, optionally closing a connection (also from two threads at once) and sending again; backlog {1,2,128}, accept filter {none, reject-first}, batch read {off,2,3 with partial batches}; every interleaving within the deviation bound over the scheduler-visible fake socket",
+		Rule:        "one remote sending every script of 5 (thorough 7) steps over {datagrams of 1000/1020/1021/1023/1 bytes, Read} so that unread datagrams fill the connection's receive ring to the byte; datagrams of 8191 and 8192 bytes (the receive buffer's size) as first datagram of a new remote and in a row from a known one; remotes {10.0.0.1:15, 10.0.0.1:16, 10.0.0.11:5} (same IP / different port, and texts that collide without the separator) injecting 1-2 tagged datagrams each from their own threads, an accepter thread, one reader thread per accepted connection, optionally closing a connection (also from two threads at once) and sending again; backlog {1,2,128}, accept filter {none, reject-first}, batch read {off,2,3 with partial batches}; every interleaving within the deviation bound over the scheduler-visible fake socket",
 		Assumptions: []string{"OS socket and ipv4.PacketConn batching replaced by zzvsched/fakenet", "completeness is asserted only where nothing may be refused (backlog larger than the number of remotes, no concurrent Close)"}})
 	register(&Check{ID: "C12", YieldOnRelease: true,
 		Scenarios: func(tier string) []*explore.Scenario {
@@ -751,6 +846,9 @@ func init() {
 				{accepted: 2, unaccepted: 0, connTwoClosers: true, bound: 1},
 				{accepted: 1, unaccepted: 0, batch: true, bound: b},
 				{accepted: 1, unaccepted: 1, pendingAccept: true, batch: true, bound: 1},
+				// the accept queue overflows: the dropped remote must leave nothing behind that keeps the socket open
+				{accepted: 1, unaccepted: 2, backlog: 1, bound: b},
+				{accepted: 0, unaccepted: 2, backlog: 1, pendingAccept: true, bound: 1},
 			}
 			if tier == "thorough" {
 				// unbounded (closed by the state cache) for the smallest lifecycles
@@ -765,6 +863,6 @@ func init() {
 			}
 			return out
 		},
-		Rule:        "0-2 accepted and 0-1 unaccepted connections; threads: listener Close (twice, then Accept; optionally from two threads at once), each connection's Close (twice, after a Write; optionally from two threads at once), a pending Accept, a pending Read, a late datagram; two lifecycles with batch I/O enabled (wrapped socket with a flush ticker goroutine that must end with the last Close); every interleaving within the deviation bound; invariant checked at the instant the fake socket is closed and whenever Accept returns a connection: socket closed => listener Close begun and no accepted connection unclosed; at quiescence: socket closed exactly once, no goroutine of package udp left, pending calls unblocked",
+		Rule:        "0-2 accepted and 0-1 unaccepted connections; threads: listener Close (twice, then Accept; optionally from two threads at once), each connection's Close (twice, after a Write; optionally from two threads at once), a pending Accept, a pending Read, a late datagram; two lifecycles whose accept queue (length 1) overflows; two lifecycles with batch I/O enabled (wrapped socket with a flush ticker goroutine that must end with the last Close); every interleaving within the deviation bound; invariant checked at the instant the fake socket is closed and whenever Accept returns a connection: socket closed => listener Close begun and no accepted connection unclosed; at quiescence: socket closed exactly once, no goroutine of package udp left, pending calls unblocked",
 		Assumptions: []string{"that the kernel frees the port when net.UDPConn.Close returns is trusted, not explored"}})
 }
